@@ -12,7 +12,9 @@ EXTENDS Integers, Sequences, TLC, Json
 
 CONSTANTS Ns,        \* byte counts a call may return
           MaxCalls,
-          Totals     \* bar totals (0 = unknown)
+          Totals,    \* bar totals (0 = unknown)
+          Provs      \* provisional totals given with SetTotal(x, false) to a bar of unknown total before the transfer (0 = none):
+                     \* an estimate does not switch completion on, so it caps nothing
 
 Errs == {"", "EOF", "boom"}
 Seqs(S, n) == UNION {[1..k -> S] : k \in 0..n}
@@ -21,10 +23,10 @@ VARIABLES cfg,      \* [dir, hasClose, hasFast, ewma, total, useFast, script, cl
           i, cur, done, results, samples, closed
 vars == <<cfg, i, cur, done, results, samples, closed>>
 
-Cfgs == [dir : {"r", "w"}, hasClose : BOOLEAN, hasFast : BOOLEAN, ewma : BOOLEAN, total : Totals, useFast : BOOLEAN,
+Cfgs == [dir : {"r", "w"}, hasClose : BOOLEAN, hasFast : BOOLEAN, ewma : BOOLEAN, total : Totals, prov : Provs, useFast : BOOLEAN,
          script : Seqs([n : Ns, err : Errs], MaxCalls), closes : 0..1]
 
-Init == /\ cfg \in {c \in Cfgs : (c.useFast => c.hasFast /\ Len(c.script) = 1) /\ Len(c.script) >= 1}
+Init == /\ cfg \in {c \in Cfgs : (c.useFast => c.hasFast /\ Len(c.script) = 1) /\ Len(c.script) >= 1 /\ (c.prov > 0 => c.total = 0)}
         /\ i = 1 /\ cur = 0 /\ done = FALSE /\ results = <<>> /\ samples = <<>> /\ closed = 0
 
 Trig == cfg.total > 0
